@@ -192,7 +192,7 @@ def run(chk):
                 'declarative split at the last depth-0 operator of the loosest level), LeftAssoc, UnaryBindsTightest. '
                 'Instances: ALL strings up to length L over a core alphabet (malformed strings included), and GUIDED instances '
                 '(only viable prefixes, hence all well-formed expressions) to greater length over three alphabets covering every '
-                'operator, unary minus, LSB/BYTEn, labels, junk. spec/Literals.tla enumerates digit strings in every notation. '
+                'operator, unary minus, LSB/BYTEn, labels, junk. spec/Literals.tla enumerates digit strings in every notation; each literal is also re-spelled with a blank at every interior position (two adjacent tokens: malformed, must be rejected, also right after the literal itself was evaluated in the same process). '
                 'Each emitted string is spelled (spaced and compact) and evaluated by the real parse_expression/get_value; a '
                 'sample goes end to end through .4byte into the image. spec/BigExpr.tla checks seeded random expressions over 64-bit literals (+ - * / unary minus, parentheses) evaluated by the real code: exact rational value by limb arithmetic, truncation toward zero by |v|*d <= |n| < (|v|+1)*d. Non-trivial = distinct text with a numeric expected value.')
     chk.assumptions = ['% with a negative operand, shifts/bitwise on non-integers or negatives, negative shift counts are left open (skipped)',
@@ -231,6 +231,20 @@ def run(chk):
         items.append((f'2 * ({t})', str(2 * e['v']), e))
     compare(chk, items, 'literals')
     chk.notes['literals'] = len(res.emits)
+    # look-alikes: a blank inside a literal makes two tokens, which is not a well-formed expression - whatever was evaluated before
+    # (each literal is evaluated first, then its blank-split spellings, in the same process)
+    look = []
+    for e in res.emits:
+        t = lit_text(e['n'], e['d'])
+        if e['n'] == 'chr' or len(t) < 2:
+            continue
+        look.append((t, str(e['v']), e))
+        look.append((f'{t} + {t}', str(2 * e['v']), e))
+        for i in range(1, len(t)):
+            look.append((t[:i] + ' ' + t[i:], 'E', e))
+            look.append((f'{t} + {t[:i]} {t[i:]}', 'E', e))
+    compare(chk, look, 'literal-lookalikes')
+    chk.notes['literal_lookalikes'] = len(look)
     chk.sample({'instance': 'literals', 'text': items[-2][0], 'expected': items[-2][1]})
     # end to end: .4byte <expr> in the image (little endian carrier)
     good = [it for it in items if it[1] not in 'EUB'][:200]
